@@ -1057,6 +1057,35 @@ def long_passphrase_cases(ctx, fams, tmpdir):
                     "long-passphrase-own-openssh:%s" % label)
 
 
+def block_aligned_pem(ctx):
+    """Encrypted legacy PEM whose plaintext DER is an exact multiple of the cipher block (a full block of PKCS#7
+    padding is appended): constructed by generating RSA-1024 keys until the DER length is 0 mod 16."""
+    from cryptography.hazmat.primitives import serialization as ser
+
+    found = 0
+    for _ in range(60):
+        k = paramiko.RSAKey.generate(1024)
+        der = k.key.private_bytes(ser.Encoding.DER, ser.PrivateFormat.TraditionalOpenSSL, ser.NoEncryption())
+        ctx.count("block_aligned_pem_keys_tried")
+        if len(der) % 16:
+            continue
+        found += 1
+        fam = ko.Family("generated:rsa1024:der-%d" % len(der), k.key.public_key())
+        for pw in ("pw", "another passphrase"):
+            buf = io.StringIO()
+            ctx.case(("pem-aligned", len(der), pw, found))
+            try:
+                k.write_private_key(buf, password=pw)
+            except Exception as e:
+                ctx.violation("write_private_key raised: " + ko.exc_sig(e), "writing a private key raised", dict(error=repr(e)[:200]))
+                continue
+            ctx.count("pem_der_block_aligned_roundtrips")
+            finish_private(ctx, fam, "generated", k, pw, lambda p, t=buf.getvalue(): paramiko.RSAKey.from_private_key(io.StringIO(t), p),
+                           "fileobj:block-aligned-der:pw=ascii")
+        if found >= 2:
+            break
+
+
 def finish_long(ctx, fam, reference, pw, loader, scenario):
     try:
         back = loader(pw)
@@ -1124,6 +1153,7 @@ def run(ctx):
                 private_roundtrip_file(ctx, fam, origin, key, rng.choice(PASSPHRASES), rng.choice(umasks), tmpdir,
                                        preexisting=rng.choice([0o644, 0o666, 0o600, 0o640]))
         ctx.guard(bundled_passphrase_variants, ctx)
+        ctx.guard(block_aligned_pem, ctx)
         ctx.guard(long_passphrase_cases, ctx, fams, tmpdir)
         for kind in (["ed25519", "ecdsa256", "rsa1024"] if ctx.quick else
                      ["ed25519", "ed25519", "ecdsa256", "ecdsa384", "ecdsa521", "rsa1024", "rsa2048"]):
@@ -1158,6 +1188,7 @@ def run(ctx):
     ctx.require("long_passphrase_roundtrips", 25)
     ctx.require("own_openssh_ed25519_files", 6)
     ctx.require("own_pem_files", 20)
+    ctx.require("pem_der_block_aligned_roundtrips", 6)
     ctx.require("one_component_pairs", 300)
     ctx.require("one_component_pairs_rsa_the_public_exponent", 40)
     ctx.require("one_component_pairs_rsa_the_modulus", 40)
